@@ -65,19 +65,20 @@ fn verif_witness_search_errors() {
 // loop variable after overwriting it.
 #[test]
 fn verif_witness_search_loopvars() {
-  let programs: [(&str, &str); 5] = [
+  let programs: [(&str, &str); 6] = [
     ("swap", "function f(a: int, b: int, n: int): int = if n == 0 { a } else { Main.f(b, a, n - 1) }"),
     ("rotate", "function f(a: int, b: int, c: int, n: int): int = if n == 0 { a } else { Main.f(b, c, a, n - 1) }"),
     ("shift", "function f(a: int, b: int, n: int): int = if n == 0 { b } else { Main.f(n, a, n - 1) }"),
     ("swap of strings", "function f(a: Str, b: Str, n: int): Str = if n == 0 { a } else { Main.f(b, a, n - 1) }"),
     ("duplicate", "function f(a: int, b: int, c: int, n: int): int = if n == 0 { c } else { Main.f(b, a, a, n - 1) }"),
+    ("swap of enum values with a tag-only variant", "function f(a: Opt, b: Opt, n: int): Opt = if n == 0 { a } else { Main.f(b, a, n - 1) }"),
   ];
   for (what, member) in programs {
     let heap = &mut Heap::new();
     let mod_ref = heap.alloc_module_reference_from_string_vec(vec!["Demo".to_string()]);
-    let args = if member.contains("a: Str") { "\"x\", \"y\", \"3\".toInt()" } else if member.contains("c: int") { "\"1\".toInt(), \"2\".toInt(), \"3\".toInt(), \"4\".toInt()" } else { "\"1\".toInt(), \"2\".toInt(), \"3\".toInt()" };
-    let print = if member.contains("a: Str") { format!("Main.f({args})") } else { format!("Str.fromInt(Main.f({args}))") };
-    let text = format!("class Main {{\n  {member}\n  function main(): unit = {{ let _ = Process.println({print}); }}\n}}");
+    let args = if member.contains("a: Opt") { "Opt.None(), Opt.Some(1), \"3\".toInt()" } else if member.contains("a: Str") { "\"x\", \"y\", \"3\".toInt()" } else if member.contains("c: int") { "\"1\".toInt(), \"2\".toInt(), \"3\".toInt(), \"4\".toInt()" } else { "\"1\".toInt(), \"2\".toInt(), \"3\".toInt()" };
+    let print = if member.contains("a: Opt") { format!("Main.f({args}).show()") } else if member.contains("a: Str") { format!("Main.f({args})") } else { format!("Str.fromInt(Main.f({args}))") };
+    let text = format!("class Opt(None, Some(int)) {{ method show(): Str = match this {{ None -> \"none\", Some(v) -> \"some\" }} }}\nclass Main {{\n  {member}\n  function main(): unit = {{ let _ = Process.println({print}); }}\n}}");
     let mut sources = HashMap::from([(mod_ref, text.clone())]);
     for (m, s) in samlang_parser::builtin_std_raw_sources(heap) {
       sources.insert(m, s);
@@ -90,24 +91,56 @@ fn verif_witness_search_loopvars() {
     let Some(rest) = ts.split("while (true) {").nth(1) else { continue };
     let body = rest.split("\n  }\n").next().unwrap();
     let mut assigned: Vec<&str> = Vec::new();
+    let mut declared_in_body: Vec<&str> = Vec::new();
     for line in body.lines().map(|l| l.trim()) {
-      if line.starts_with("let ") || line.starts_with("if ") || line == "}" || line == "break;" {
+      if let Some(decl) = line.strip_prefix("let ") {
+        declared_in_body.push(decl.split([':', ' ', '=']).next().unwrap_or(""));
+        continue;
+      }
+      if line.starts_with("if ") || line == "}" || line == "break;" {
         assigned.clear();
         continue;
       }
       if let Some((lhs, rhs)) = line.trim_end_matches(';').split_once(" = ") {
-        if assigned.contains(&rhs) {
+        // reading a loop variable (not a temporary of the body) after it was given its next value
+        if assigned.contains(&rhs) && !declared_in_body.contains(&rhs) {
           println!(
             "WITNESS: tail call `{what}` ({member}): the emitted loop executes `{line}` after `{rhs}` was overwritten, so the parameter values of the next iteration are not the arguments of the call; loop body: {}",
             body.replace('\n', " ")
           );
           return;
         }
-        assigned.push(lhs);
+        if !declared_in_body.contains(&lhs) {
+          assigned.push(lhs);
+        }
+      }
+    }
+    // a saved copy must be a plain copy: a checked cast of the saved value can trap (an enum value may be an i31)
+    if let Some(wat) = compile_sources_wat_text_for_witness(&text) {
+      let mut prev = "";
+      for line in body.lines().map(|l| l.trim()) {
+        // `let T: ty = ..; T = v;` (plain copy) or `let T = v as unknown as ty;` (cast) at the end of the loop body
+        let cast_copy = line.strip_prefix("let ").filter(|l| l.contains(" as unknown as ")).and_then(|l| l.split(' ').next());
+        let plain_copy = match (prev.strip_prefix("let "), line.trim_end_matches(';').split_once(" = ")) {
+          (Some(decl), Some((lhs, _))) if decl.starts_with(lhs) && decl.contains(':') => Some(lhs),
+          _ => None,
+        };
+        if let Some(lhs) = cast_copy.or(plain_copy) {
+          {
+            let needle = format!("(local.set ${lhs} ");
+            if let Some(l) = wat.lines().find(|l| l.contains(&needle)) {
+              if l.contains("ref.cast") {
+                println!("WITNESS: tail call `{what}` ({member}): the saved copy of a loop variable is emitted as a checked cast, which traps when the value is an unboxed variant: {}", l.trim());
+                return;
+              }
+            }
+          }
+        }
+        prev = line;
       }
     }
   }
-  println!("WITNESS-SEARCH: no violating history found (5 tail-recursive functions)");
+  println!("WITNESS-SEARCH: no violating history found (6 tail-recursive functions)");
 }
 
 fn compile_demo(text: &str) -> Option<(String, String)> {
@@ -210,7 +243,8 @@ fn wat_bytes(s: &str) -> Vec<u8> {
 // at the recorded offset and length.
 #[test]
 fn verif_witness_search_string_constants() {
-  let lists: [&[&str]; 4] = [
+  let lists: [&[&str]; 5] = [
+    &["h\u{e9}llo w\u{f6}rld", "prix: 5 \u{20ac} / 5", "\u{e9}", "plain ascii", "\u{4e2d}\u{6587}"],
     &["Hello World", "World", "Hello", "", "lo W"],
     &["abc", "abc1", "bc", "c", "abcabc"],
     &["x", "xx", "xxx", "y x"],
@@ -233,16 +267,56 @@ fn verif_witness_search_string_constants() {
       };
       let nums: Vec<usize> = init.split("(i32.const ").skip(1).filter_map(|p| p.split(')').next().and_then(|n| n.trim().parse().ok())).collect();
       checked += 1;
+      // compared byte for byte (the UTF-8 bytes of the TypeScript literal against the data at offset / length)
+      let same_bytes = nums.len() == 2 && nums[0] + nums[1] <= data.len() && &data[nums[0]..nums[0] + nums[1]] == ts_text.as_bytes();
       let wasm_text = if nums.len() == 2 && nums[0] + nums[1] <= data.len() {
         String::from_utf8_lossy(&data[nums[0]..nums[0] + nums[1]]).to_string()
       } else {
         format!("<offset/length {nums:?} outside the {} data bytes>", data.len())
       };
-      if wasm_text != ts_text {
+      if !same_bytes {
         println!("WITNESS: string constant {idx}: the TypeScript literal is {ts_text:?}, the WebAssembly data at {nums:?} is {wasm_text:?}; constants of the program: {list:?}");
         return;
       }
     }
   }
   println!("WITNESS-SEARCH: no violating history found ({checked} string constants)");
+}
+
+// Witness search for unit `enumlayout` (C01): a variant whose payload can itself be an unboxed value (a tag-only
+// variant of another enum, or the enum being defined) must stay boxed, otherwise two different values share one
+// representation.  Looks at the emitted TypeScript type definitions: a boxed variant has a `$_Sub` tuple type.
+#[test]
+fn verif_witness_search_enum_layout() {
+  let programs: [(&str, &str, &str); 3] = [
+    (
+      "payload enum with a tag-only variant",
+      "class Shape(Dot, Circle(int)) { method show(): Str = match this { Dot -> \"dot\", Circle(r) -> \"circle\" } }\nclass Opt<T>(None, Some(T)) { function <T> some(t: T): Opt<T> = Opt.Some(t) function <T> none(): Opt<T> = Opt.None<T>() }\nclass Main {\n  function describe(o: Opt<Shape>): Str = match o { None -> \"none\", Some(s) -> s.show() }\n  function main(): unit = { let _ = Process.println(Main.describe(Opt.some(Shape.Dot()))); let _ = Process.println(Main.describe(Opt.none<Shape>())); }\n}",
+      "type Demo_Opt__Demo_Shape$_Sub",
+    ),
+    (
+      "payload enum with only tag-only variants",
+      "class Color(Red, Green) { method show(): Str = match this { Red -> \"red\", Green -> \"green\" } }\nclass Opt<T>(None, Some(T)) { function <T> some(t: T): Opt<T> = Opt.Some(t) function <T> none(): Opt<T> = Opt.None<T>() }\nclass Main {\n  function describe(o: Opt<Color>): Str = match o { None -> \"none\", Some(s) -> s.show() }\n  function main(): unit = { let _ = Process.println(Main.describe(Opt.some(Color.Red()))); let _ = Process.println(Main.describe(Opt.none<Color>())); }\n}",
+      "type Demo_Opt__Demo_Color$_Sub",
+    ),
+    (
+      "recursive enum",
+      "class Nat(Z, S(Nat)) { method toInt(): int = match this { Z -> 0, S(n) -> 1 + n.toInt() } }\nclass Main { function main(): unit = { let _ = Process.println(Str.fromInt(Nat.S(Nat.S(Nat.Z())).toInt())); } }",
+      "type Demo_Nat$_Sub",
+    ),
+  ];
+  for (what, text, needed) in programs {
+    let Some((ts, _)) = compile_demo(text) else {
+      println!("WITNESS-SEARCH: program `{what}` does not compile");
+      continue;
+    };
+    if !ts.lines().any(|l| l.starts_with(needed)) {
+      println!(
+        "WITNESS: {what}: the variant with a payload is stored unboxed (no `{needed}..` tuple type is emitted), so a payload that is itself an unboxed value cannot be told from the enum's own tag-only variant; emitted types: {}",
+        ts.lines().filter(|l| l.starts_with("type Demo_")).collect::<Vec<_>>().join(" ")
+      );
+      return;
+    }
+  }
+  println!("WITNESS-SEARCH: no violating history found (3 enum layouts)");
 }
